@@ -93,7 +93,8 @@ def term_of(c, p):
     cur = [int(x.split(':')[1]) for x in m.group(2).split()]
     res = dv.coq_list([ls_common.zpairs(p['results'].get(t, [])) for t in range(nthr)])
     return '(EC %s %s %d%%nat %s %s %s %s %s %d %s %s)' % (
-        dv.zlit(c['w0']), 'true' if c['tmo'] else 'false', c['budget'],
+        dv.zlit(c['w0']), 'true' if c['tmo'] else 'false', c['budget'] + 1,   # vsched reports 'done' when the last step is exactly the budget-th
+
         dv.coq_list([dv.coq_list([op_coq(o) for o in pr]) for pr in c['progs']]),
         dv.coq_list([str(x) for x in c['sched']]),
         ls_common.zpairs(p['steps']), res, dv.zlit(word), p['status'],
